@@ -151,8 +151,56 @@ def two_unwinders(rng, arch, base, name):
 
 HIGH_BASES = [0x10000, 0xffff800000010000, 0xffffffff80000000, (1 << 48) + 0x10000, (0xabcd << 48) + 0x10000, (1 << 63) + 0x10000]
 
+def overlap_history(rng, arch, name):
+    """Mappings that OVERLAP an image with unwind data (anonymous / JIT mappings reported inside or across a library's
+    range, a second image with other CFI in the middle of the first): adding or removing one changes which module an
+    address resolves to - for the addresses inside it and for the addresses of the big module behind its start -
+    whether or not the new module has unwind data.  Every call is twinned with a fresh cache."""
+    s = Script(arch, rng.choice(["may", "must"]))
+    base_stack, nw = 0x7000, 64
+    s.mem("S", suites.stack_window(rng, base_stack, nw, 0x11010, holes=False))
+    d0 = 0x10000
+    fd = [dict(start=0x100 + 0x100 * j, len=0x100, rows=[(0, suites.std_row(arch, "frameless", 2 + j))]) for j in range(8)]
+    s.module_dwarf("D", d0, d0 + 0x1000, d0, 0, ["hdr", "eh", "debug"][rng.below(3)], fd, rng, shuffle=True)
+    over = {"NI": (d0 + 0x140, d0 + 0x180), "NB": (d0 - 0x1000, d0 + 0x220), "NA": (d0 + 0x700, d0 + 0x2000),
+            "NW": (d0 - 0x2000, d0 + 0x4000), "NS": (d0 + 0x300, d0 + 0x301)}
+    for k, (a, b) in over.items():
+        s.module_none(k, a, b, a, 0)
+    # a second image WITH unwind data (other frame sizes) in the middle of the first
+    f2 = [dict(start=0, len=0x80, rows=[(0, suites.std_row(arch, "frameless", 12))])]
+    s.module_dwarf("D2", d0 + 0x480, d0 + 0x500, d0 + 0x480, 0, "eh", f2, rng)
+    starts = dict(D=d0, D2=d0 + 0x480, **{k: v[0] for k, v in over.items()})
+    s.add("new U0"); s.add("add U0 D"); s.add("newcache C0")
+    unws = {"U0": {"D"}}
+    pts = [d0 + 0x100 * j + o for j in range(1, 9) for o in (1, 0x41, 0x50, 0x81, 0xff)] + [d0 + 0x2ff, d0 + 0x300, d0 + 0x301, d0 - 0x800, d0 + 0x1800]
+    kinds = {}
+    for _ in range(rng.range(80, 160)):
+        c = rng.below(10)
+        u = rng.choice(sorted(unws))
+        if c < 2:
+            free = [m for m in starts if m not in unws[u]]
+            if free:
+                m = rng.choice(free); s.add("add %s %s" % (u, m)); unws[u].add(m)
+        elif c < 3:
+            if unws[u]:
+                m = rng.choice(sorted(unws[u])); s.add("remove %s %s" % (u, hx(starts[m]))); unws[u].discard(m)
+        elif c < 4 and len(unws) < 2:
+            s.add("clone %s U1" % u); unws["U1"] = set(unws[u])
+        else:
+            x = rng.choice(pts)
+            kind = kinds.setdefault(x, rng.choice(["ip", "ra"]))
+            addr = x if kind == "ip" else x + 1
+            regs = suites.regs_for(s, rng, arch, x, base_stack, nw)
+            l1 = s.add("unwind %s C0 %s %s %s S" % (u, kind, hx(addr), regs), tag="%s:overlap:%s" % (arch, kind))
+            s.add("newcache F")
+            l2 = s.add("unwind %s F %s %s %s S" % (u, kind, hx(addr), regs))
+            s.meta[l1] = {"twin": l2}
+    return name, s
+
 def generate(rng, tier):
     out = []
+    for i in range(4 if tier == "quick" else 60):
+        out.append(overlap_history(rng, "x86" if i % 2 == 0 else "a64", "overlap-%d" % i))
     for bi, b in enumerate(HIGH_BASES):
         out.append(two_unwinders(rng, "x86" if bi % 2 == 0 else "a64", b, "two-%d" % bi))
     for i in range(6 if tier == "quick" else 200):
